@@ -73,7 +73,7 @@ Proof.
                In h0 (calls (match om with
                              | None => []
                              | Some m => let '(outs, _, v, _) := process_extension s k p m a in
-                                         outs ++ match v with HNil => [] | _ => [OAct ATerminate] end
+                                         outs ++ match v with HErr => [OAct ATerminate] | _ => [] end
                              end)) -> hcall_chid h0 = k).
     { intros om a h0 H0. destruct om as [m|]; [|contradiction].
       destruct (process_extension s k p m a) as [[[outs resp] v] used] eqn:E.
@@ -440,4 +440,35 @@ Proof.
   assert (G : forall s, tracked_inv s -> tracked_inv (fold_left (fun s io => fst (tstep s (fst io) (snd io))) l s)).
   { induction l as [|io l IH]; intros s H; cbn; [exact H|]. apply IH. apply tracked_inv_step. exact H. }
   apply G. intros k [r [b []]].
+Qed.
+
+(* ---------- C11 at the transport: a 'stay paused' answer never terminates the request ---------- *)
+Definition terminates (o : list tout) : bool :=
+  existsb (fun x => match x with OAct ATerminate => true | _ => false end) o.
+
+Lemma terminates_app a b : terminates (a ++ b) = terminates a || terminates b.
+Proof. unfold terminates. apply existsb_app. Qed.
+
+Lemma process_extension_no_terminate s k p m a :
+  let '(outs, _, _, _) := process_extension s k p m a in terminates outs = false.
+Proof.
+  unfold process_extension. destruct (g_isreq m); destruct (triple_eqb _ _); reflexivity.
+Qed.
+
+(* a response (or request update) of the counterparty that the events handler answers with nil or
+   with ErrPause ("the local side is still paused") leaves the graphsync request alone *)
+Theorem stay_paused_does_not_terminate :
+  forall s p rid m a rest k,
+    rlookup rid (ts_reqmap s) = Some k ->
+    ha_ret a <> HErr ->
+    (let '(_, _, _, used) := process_extension s k p m a in used = true) ->
+    terminates (snd (tstep s (GIncomingResponse p rid (Some m) None) (a :: rest))) = false.
+Proof.
+  intros s p rid m a rest k L Hne Hused. unfold tstep. rewrite L. cbn [pop_ans].
+  pose proof (process_extension_no_terminate s k p m a) as T.
+  destruct (process_extension s k p m a) as [[[outs resp] v] used] eqn:E. cbn [snd].
+  assert (Hv : v = ha_ret a \/ used = false).
+  { revert E. unfold process_extension. destruct (g_isreq m); destruct (triple_eqb _ _); intros E; inversion E; auto. }
+  destruct Hv as [->|Hu]; [|congruence].
+  rewrite app_nil_r, !terminates_app, T. destruct resp; destruct (ha_ret a); cbn; try reflexivity; congruence.
 Qed.
